@@ -276,4 +276,105 @@ class C13(Prop):
         return None
 
 
-ALL = {c.pid: c for c in (C13, C15, C16, C17, C12, C19, C01, C02, C03, C04, C05, C06, C07, C08, C10, C11)}
+class C09(Prop):
+    pid = 'C09'
+    variants = ['release', 'debug', 'release-zb', 'debug-zb']
+    k_fields = ['R']
+    o_fields = ['fold']
+    isolate = True
+    per_case_timeout = 0.3
+    known_covers_k = True
+    rule = ('every registered function (names from the regenerated registration table) x no argument, each of 103 boundary values (NaN, infinities, signed zero, '
+            'huge/fractional/negative numbers as indices, counts, dates, code points; empty and non-ASCII strings; malformed chrono format strings and regular '
+            'expressions; nested, heterogeneous, 200-element and inconsistently ordered arrays), every ordered pair of a 33-value sub-pool (of all 103 in thorough), '
+            '200 (20000) random 3-5 argument lists per function, 4000 (200000) calls through scripts (compile, validate, optimize, execute) - in the four builds '
+            '{overflow checks on, off} x {default, zero_based_strings}, each in child processes with crash isolation and a per-case time cap; a panic, abort or hang is '
+            'a violation; results of the modelled functions are compared with the Coq models')
+    assumptions = COMMON_ASSUME + ['library internals (chrono, regex-lite, slice::sort) are exercised, not proved', 'memory use is bounded only by the per-process address space, not measured per call']
+
+    def gen(self, tier, R):
+        out = []
+        for v, off in (('release', 1), ('debug', 1), ('release-zb', 0), ('debug-zb', 0)):
+            t = tier if v == 'release' else 'quick'
+            cs = builtins.gen_c09(t, R, off)
+            if v != 'release' and tier == 'quick':
+                cs = cs[::2]
+            out += [(c, v) for c in cs]
+        return out
+
+    def known(self, line, k, o):
+        el = core.top_elems(line)
+        if k is not None and 'PANIC' in k:
+            if el and el[0] == 'bi' and el[3] == core.s('sort') and builtins.is_nontame_arr(el[4:]):
+                return 'sort_panics_on_inconsistent_order'
+            if el and el[0] == 'script' and core.text_of(line).startswith('sort('):
+                return 'sort_panics_on_inconsistent_order'
+        if el and el[0] == 'bi' and el[3] in (core.s('sort'), core.s('max'), core.s('min')) and builtins.is_nontame_arr(el[4:]) and (k is None or 'PANIC' not in k):
+            return 'unordered_result_on_inconsistent_order'
+        return None
+
+    def nontrivial(self, line, k):
+        return k.startswith('R=ok')
+
+
+class C14(Prop):
+    pid = 'C14'
+    k_fields = ['R']
+    o_fields = ['det', 'foldeq', 'hasheq']
+    known_covers_k = True
+    rule = ('every pure registered builtin on arrays whose elements are equal across kinds (1, \'1\', \'1.0\', true, 0, \'0\', false, \'\', -0), on the boundary '
+            'pool and on random argument lists: called twice in a row (det), folded by optimize and compared with the run-time call (foldeq), and evaluated in N '
+            'fresh processes (64 quick / 2000 thorough: each with its own randomly seeded hasher) whose complete outputs must be byte-identical; Hash for Value is '
+            'compared with the model\'s hash classes under a fixed-key hasher (hasheq); results of the modelled functions are compared with the Coq models')
+    assumptions = COMMON_ASSUME + ['TZ-dependence of the RFC date functions is outside the property (identical arguments in an identical environment)']
+    nproc = {'quick': 64, 'thorough': 2000}
+
+    def gen(self, tier, R):
+        cs = builtins.gen_c14(tier, R)
+        out = [(c, 'release') for c in cs]
+        out += [(c.replace('(bi _ 1 ', '(foldcall _ ', 1), 'release') for c in cs[::3]]
+        pool = builtins.POOL
+        out.append(('(hashclass _ ' + ' '.join(pool) + ')', 'release'))
+        return out
+
+    def known(self, line, k, o):
+        el = core.top_elems(line)
+        if el and el[0] in ('bi', 'foldcall'):
+            args = el[4:] if el[0] == 'bi' else el[3:]
+            name = el[3] if el[0] == 'bi' else el[2]
+            if name in (core.s('sort'), core.s('max'), core.s('min')) and builtins.is_nontame_arr(args):
+                return 'unordered_result_on_inconsistent_order'
+        return None
+
+    def post(self, ctx):
+        """the same calls in N fresh processes: outputs must be byte-identical (a different hasher seed per process)"""
+        import subprocess, hashlib
+        recs = [r for r in ctx['recs'] if r['line'].startswith('(bi ')]
+        lines = [r['line'] for r in recs]
+        # keep the arrays with cross-kind-equal elements and a sample of the rest
+        sel = [l for l in lines if '(a ' in l][:1500] + lines[::25]
+        inp = "\n".join(sel) + "\n"
+        n = self.nproc[ctx['tier']]
+        binary = ctx['binaries']['release']
+        ref = None
+        bad = []
+        procs = []
+        import concurrent.futures as cf
+
+        def run(i):
+            return subprocess.run([binary], input=inp, capture_output=True, text=True).stdout
+        with cf.ThreadPoolExecutor(max_workers=16) as ex:
+            outs = list(ex.map(run, range(n)))
+        ref = outs[0].splitlines()
+        for o in outs[1:]:
+            ol = o.splitlines()
+            if ol != ref:
+                for a, b_, l in zip(ref, ol, sel):
+                    if a != b_:
+                        bad.append((l, f'differs between fresh processes: {a[:120]} vs {b_[:120]}', None))
+                        break
+        self.extra_cov = {'fresh_processes': n, 'calls_per_process': len(sel), 'processes_deviating': len(bad)}
+        return bad[:5]
+
+
+ALL = {c.pid: c for c in (C09, C14, C13, C15, C16, C17, C12, C19, C01, C02, C03, C04, C05, C06, C07, C08, C10, C11)}
